@@ -278,6 +278,24 @@ pub fn worker(tier: &str) {
             all_terms.push(cplx("f", vec![list(s.clone()), var(1, "$X")]));
         }
     }
+    // scale: k distinct variables, each occurring twice; long variable names with a long common prefix;
+    // long lists and deep terms
+    let mut bsizes: Vec<usize> = vec![4, 5, 7, 8, 9, 15, 16, 17, 20, 21, 31, 32, 33, 63, 64, 65];
+    if thorough {
+        bsizes.extend([127, 128, 129, 255, 256, 257]);
+    }
+    for &k in &bsizes {
+        let vars: Vec<T> = (1..=k).map(|i| var(0, &format!("$V{}", i))).collect();
+        let mut twice = vars.clone();
+        twice.extend(vars.clone());
+        all_terms.push(cplx("k", twice.clone()));
+        all_terms.push(list_t(twice, var(0, "$Tail")));
+        all_terms.push((0..k).fold(var(0, "$X"), |t, i| cplx("f", vec![t, var(0, &format!("$D{}", i % 3))])));
+        let stem = "T".repeat(k);
+        let (n1, n2) = (var(0, &format!("${}es", stem)), var(0, &format!("${}Rate", stem)));
+        all_terms.push(cplx("swap", vec![n1.clone(), n2.clone(), n2.clone(), n1.clone()]));
+        all_terms.push(list(vec![n1.clone(), n2.clone(), var(0, &format!("${}", stem))]));
+    }
     for t in &all_terms {
         let my = idx;
         idx += 1;
